@@ -386,8 +386,31 @@ def _u_pow(a, p):
     return a ** p
 
 
-def _u_max(a, b): return smax(_b2n(a), _b2n(b))
-def _u_min(a, b): return smin(_b2n(a), _b2n(b))
+def _lex_ge(a, b):
+    """NumPy orders complex numbers lexicographically (real part, then imaginary part)."""
+    a, b = C.lift(a), C.lift(b)
+    return sb_or(a.re > b.re, sb_and(a.re == b.re, a.im >= b.im))
+
+
+def _u_max(a, b):
+    a, b = _b2n(a), _b2n(b)
+    if isinstance(a, C) or isinstance(b, C):
+        a, b = C.lift(a), C.lift(b)
+        # lexicographic maximum: the real part is the maximum of the real parts
+        return C(smax(a.re, b.re), ite(_lex_ge(a, b), a.im, b.im))
+    return smax(a, b)
+
+
+def _u_min(a, b):
+    a, b = _b2n(a), _b2n(b)
+    if isinstance(a, C) or isinstance(b, C):
+        a, b = C.lift(a), C.lift(b)
+        return C(smin(a.re, b.re), ite(_lex_ge(a, b), b.im, a.im))
+    return smin(a, b)
+
+
+def _wrapsb(x):
+    return x
 
 
 def _cmpop(op):
@@ -957,11 +980,7 @@ def _einsum(sub, *ops, optimize=False, out=None, **kw):
     res = np.empty(oshape, dtype=object)
     dt = result_dtype(list(ops))
     zero = C(0.0, 0.0) if dt.kind == 'c' else R(0.0)
-    # only broadcasting of ellipsis dims is legal in numpy; named labels must agree
-    for l, o in zip(ins_l, ops_o):
-        for c, n in zip(l, o.shape):
-            if not c.startswith('<') and n != sizes[c]:
-                raise ValueError('einsum: operands could not be broadcast together (label %s)' % c)
+    # NumPy broadcasts size-1 dimensions for named labels as well as for the ellipsis
     for oidx in np.ndindex(*oshape):
         env = dict(zip(out_l, oidx))
         acc = None
